@@ -510,6 +510,42 @@ func propC06(c *Ctx) {
 			}
 		}
 	}
+	// a whole number as second operand of a float is converted to float ONCE (nearest float32 of the integer, not of its
+	// double): integers above 2^53 that sit just above a float32 rounding midpoint show the difference
+	var wholes []int64
+	for k := uint(54); k <= 62; k++ {
+		wholes = append(wholes, int64(1)<<k+int64(1)<<(k-24)+1, -(int64(1)<<k + int64(1)<<(k-24) + 1), int64(1)<<k+3*(int64(1)<<(k-24))-1)
+	}
+	wholes = append(wholes, 16777217, 9007199254740993, math.MaxInt64, math.MinInt64+1)
+	for _, n := range wholes {
+		for _, nv := range []*variants.Variant{vLong(n), vInt(int(n))} {
+			for _, f := range []float32{0, 1, -2.5} {
+				for _, name := range []string{"add", "sub", "mul", "equal", "less"} {
+					got := runOpCase(c, "u", opIndex(name), vFloat(f), nv)
+					y := float32(n)
+					want := map[string]string{"add": "ok " + encF32(f+y), "sub": "ok " + encF32(f-y), "mul": "ok " + encF32(f*y), "equal": b2s(f == y), "less": b2s(f < y)}[name]
+					if got != want {
+						c.fail(Failure{Kind: "oracle", Op: fmt.Sprintf("op u %s %s %s", name, encArg(vFloat(f)), encArg(nv)), Impl: got, Note: fmt.Sprintf("%d converted to float is %v (one rounding): expected %s", n, y, want)})
+					}
+				}
+			}
+		}
+	}
+	// membership among date-times is equality of instants, whatever representation (zone) the values carry
+	inst := time.Unix(1700000000, 0)
+	reps := []time.Time{inst.UTC(), inst.In(time.FixedZone("E", 3600)), inst.In(time.FixedZone("W", -7200)), inst.Local()}
+	for _, x := range reps {
+		for _, y := range reps {
+			for _, arr := range []*variants.Variant{vArr(vTime(y)), vArr(vTime(inst.Add(time.Hour)), vTime(y)), vArr(vTime(y), vTime(y))} {
+				if got := runOpCase(c, "u", opIndex("in"), arr, vTime(x)); got != "ok b1" {
+					c.fail(Failure{Kind: "oracle", Op: fmt.Sprintf("op u in %s %s", encArg(arr), encArg(vTime(x))), Impl: got, Note: "the list holds the same instant (in another zone): membership follows equality, expected ok b1"})
+				}
+			}
+			if got := runOpCase(c, "u", opIndex("in"), vArr(vTime(inst.Add(time.Second))), vTime(x)); got != "ok b0" {
+				c.fail(Failure{Kind: "oracle", Op: "op u in <other instant>", Impl: got, Note: "another instant is not a member"})
+			}
+		}
+	}
 	// shifts follow the host's integer semantics for every non-negative count: counts of 64 and more (also those whose low 5, 6
 	// or 32 bits are zero) shift everything out
 	for _, a := range all {
@@ -706,8 +742,9 @@ func decVariant(s string) *variants.Variant {
 func runConvCase(c *Ctx, m string, a *variants.Variant, t variants.VariantType) string {
 	op := fmt.Sprintf("conv %s %s %d", m, encArg(a), int(t))
 	var res *variants.Variant
+	mg := mgrOf(m) // one manager for the conversion and its repetition: nothing the first call produced may be remembered
 	impl := safeCall(func() string {
-		r, err := mgrOf(m).Convert(a, t)
+		r, err := mg.Convert(a, t)
 		res = r
 		return outcome(r, err)
 	})
@@ -715,8 +752,16 @@ func runConvCase(c *Ctx, m string, a *variants.Variant, t variants.VariantType) 
 	c.count(fmt.Sprintf("target:%d", int(t)))
 	if res != nil && res != a && strings.HasPrefix(impl, "ok") {
 		again := safeCall(func() string {
-			res.SetAsString("\u00a7written-by-the-caller")
-			r2, err := mgrOf(m).Convert(a, t)
+			if c.Evals%2 == 0 {
+				res.SetAsString("\u00a7written-by-the-caller")
+			} else {
+				res.SetAsInteger(res.Length() + 43)
+			}
+			r2, err := mg.Convert(a.Clone(), t) // an equal value in another object, the same manager
+			if g := outcome(r2, err); g != impl {
+				return g
+			}
+			r2, err = mg.Convert(a, t)
 			res = r2
 			return outcome(r2, err)
 		})
